@@ -65,10 +65,29 @@ func (g *gen) withState(st *state, f func()) {
 	}
 	save := g.cur
 	saveBlock := g.curBlock
+	saveOuter := g.outerState
+	if g.outerState == nil {
+		g.outerState = save
+	}
 	g.cur = st
 	f()
 	g.cur = save
 	g.curBlock = saveBlock
+	g.outerState = saveOuter
+}
+
+// loadLocal reads a local variable of the function under verification. Inside old(...) the heap is the entry heap, but a
+// local variable (which did not exist at entry) still denotes its current value: old(lhs.Op) is the entry value of field Op
+// of the node lhs points to now.
+func (g *gen) loadLocal(pv Val, t types.Type) Val {
+	if g.outerState == nil {
+		return g.load(pv, t)
+	}
+	save := g.cur
+	g.cur = g.outerState
+	v := g.load(pv, t)
+	g.cur = save
+	return v
 }
 
 func binderSort(g *gen, env *specEnv, b Binder) (string, types.Type) {
@@ -196,6 +215,9 @@ func (g *gen) lookupName(env *specEnv, name string) (Val, error) {
 			}
 			v := g.val(dr.v)
 			if dr.isAddr {
+				if _, isAlloc := dr.v.(*ssa.Alloc); isAlloc {
+					return g.loadLocal(v, dr.v.Type().Underlying().(*types.Pointer).Elem()), nil
+				}
 				return g.load(v, dr.v.Type().Underlying().(*types.Pointer).Elem()), nil
 			}
 			return v, nil
@@ -205,7 +227,7 @@ func (g *gen) lookupName(env *specEnv, name string) (Val, error) {
 			for _, ins := range b.Instrs {
 				if a, ok := ins.(*ssa.Alloc); ok && a.Comment == name {
 					if pv, ok := g.vals[a]; ok {
-						return g.load(pv, a.Type().(*types.Pointer).Elem()), nil
+						return g.loadLocal(pv, a.Type().(*types.Pointer).Elem()), nil
 					}
 				}
 			}
